@@ -252,6 +252,9 @@ def run(tier):
         fi_init, init_records = ctor.check_ode_init(reg, src, PID)
         R.under_contract(fi_init)
         reset_vs_constructor(reg, init_records)
+        # the setting operations of the histories: each changes its setting (and what depends on it) and nothing of the run state
+        for fi in ctor.check_setters(reg, src, PID):
+            R.under_contract(fi)
         frame_completeness(reg, src)
         aliasing_and_determinism(reg, src)
         for fi in IC.verify_helpers(src, reg, PID):
